@@ -19,5 +19,6 @@ func All() map[string]sim.Property {
 	return map[string]sim.Property{
 		"C03": C03{},
 		"C04": C04{},
+		"C07": C07{},
 	}
 }
